@@ -22,9 +22,12 @@ static std::vector<const char*> SYNTH[] = {
       {"geom", "*", "size", "type", "fromto"},
       {"site", "*", "pos"},
     {">"},
+    {"conn", "*", "s1", "s2", "b1", "b2", "an"},
   {">"}};
 static const mjXConstraintDef SYNTH_CONS[] = {
-  {2, 'e', "a|b"}, {2, 'r', "c|a"}, {4, 'e', "quat|euler"}, {7, 'o', "size|fromto"}, {7, 't', "size type"}};
+  {2, 'e', "a|b"}, {2, 'r', "c|a"}, {4, 'e', "quat|euler"}, {7, 'o', "size|fromto"}, {7, 't', "size type"},
+  // bundles of several attributes, as on <connect>
+  {10, 'o', "s1 s2|b1 an"}, {10, 'e', "s1 s2|b1 b2 an"}, {10, 't', "s1|s2"}};
 
 namespace real {
 #include "xml/generated/mjcf_table.inc"
